@@ -17,6 +17,16 @@ CHECKS = {
    note=BASE_NOTE + 'Model of symmetry.py is hand-written (tied by correspondence, not verified); Fourier branch modelled by the DFT identity g[j]=(f[j]+f[-j mod m])/2.',
    technique='Coq proof over list-of-rows model + vm_compute correspondence + property search on implementation',
    design='DESIGN.md §3 C06'),
+ 'C20': dict(
+   text=('Theorems (Coq): over the whole finite request space all_requests of model/Dispatch.v (315 cells: function/Transform x '
+         '10 methods x 3 directions x named shape classes x out-of-set option values) every request raises or is answered '
+         'with exactly the requested method and direction; requests that cannot be honoured raise; a forward request is never '
+         'answered by an inverse. Decided by vm_compute on the enumerated space (bound stated in the theorem). Every cell is '
+         'executed on the implementation on every run (exhaustive tie) and classified by an independent closed-form Gaussian '
+         'Abel pair as raise/forward/inverse.'),
+   note=BASE_NOTE + 'Model of the guards is hand-written; it is compared with the implementation on all cells; theorems are closed under the global context (no axioms).',
+   technique='Coq decision-table model, finite-domain proof by computation + exhaustive execution of the request grid',
+   design='DESIGN.md §3 C20'),
 }
 
 NOT_YET = 'check not built yet (work in progress; see DESIGN.md section 3)'
